@@ -420,6 +420,81 @@ def genExhLines (_seed : Nat) : List String := Id.run do
         | none => pure ()
   return out.reverse
 
+/-! ## scripted programs: the reference encoder as a service
+
+`script kind=lzma lc= lp= pb= dict= prog=<tok>,<tok>,…` and
+`script kind=lzma2 chunks=<chunk>|<chunk>|…` let the orchestrator ask for the encoding and the
+meaning of a specific symbol program.  Tokens: `L<byte>`, `M<dist>.<len>`, `S`, `R<idx>.<len>`, `E`,
+`X<n>.<seed>.<alphabet>` (n pseudo-random literals), each optionally followed by `*<count>`.
+Chunks: `U1:<hex>` / `U2:<hex>` (uncompressed, with / without dictionary reset),
+`V1:<n>.<seed>` / `V2:<n>.<seed>` (the same with n pseudo-random bytes),
+`C<cls>:<lc>.<lp>.<pb>:<tokens>` (compressed; cls 0 nothing, 1 state reset, 2 + new props, 3 + dict reset). -/
+
+def pseudoLits : Nat → Rng → Nat → List Sym → List Sym
+  | 0, _, _, acc => acc.reverse
+  | n+1, r, a, acc =>
+    let (r, b) := r.below (max a 1)
+    pseudoLits n r a (Sym.lit (UInt8.ofNat ((b * 37 + 11) % 256)) :: acc)
+
+def natArgs (s : String) : List Nat := (s.splitOn ".").map fun x => x.toNat?.getD 0
+
+def parseTok (t : String) : List Sym :=
+  let (body, k) := match t.splitOn "*" with
+    | [b, k] => (b, k.toNat?.getD 1)
+    | _ => (t, 1)
+  let args := natArgs (body.drop 1).toString
+  let one : List Sym :=
+    if body == "S" then [.shortRep]
+    else if body == "E" then [.eos]
+    else if body.startsWith "L" then [.lit (UInt8.ofNat (args.getD 0 0))]
+    else if body.startsWith "M" then [.mtch (args.getD 0 1) (args.getD 1 2)]
+    else if body.startsWith "R" then [.rep (args.getD 0 0) (args.getD 1 2)]
+    else if body.startsWith "X" then
+      pseudoLits (args.getD 0 0) { s := UInt64.ofNat (args.getD 1 1 * 2654435761 + 12345) } (args.getD 2 256) []
+    else []
+  (List.replicate k one).flatten
+
+def parseProg (s : String) : List Sym :=
+  if s.isEmpty then [] else ((s.splitOn ",").map parseTok).flatten
+
+/-- meaning of the longest well-formed prefix of a program -/
+def expandPrefix (dict : Nat) (prog : List Sym) : Bytes × Bool :=
+  let (st, ok) := prog.foldl (init := (({} : SpecSt), true)) fun (st, ok) sym =>
+    if !ok then (st, ok) else
+    match SpecSt.step dict st sym with
+    | some (st', _) => (st', true)
+    | none => (st, false)
+  (st.hist.toList, ok)
+
+def parseChunk (c : String) : Option Chunk :=
+  match c.splitOn ":" with
+  | ["U1", h] => some (.raw true ((bytesOfHex h).getD []))
+  | ["U2", h] => some (.raw false ((bytesOfHex h).getD []))
+  | ["V1", a] => let xs := natArgs a; some (.raw true (randBytes (xs.getD 0 1) { s := UInt64.ofNat (xs.getD 1 1 * 7919 + 1) } []).2)
+  | ["V2", a] => let xs := natArgs a; some (.raw false (randBytes (xs.getD 0 1) { s := UInt64.ofNat (xs.getD 1 1 * 7919 + 1) } []).2)
+  | [k, p, toks] =>
+    let xs := natArgs p
+    some (.lzma ((k.drop 1).toString.toNat?.getD 3) { lc := xs.getD 0 0, lp := xs.getD 1 0, pb := xs.getD 2 0 } (parseProg toks))
+  | _ => none
+
+def scriptLine (line : String) : String :=
+  let f := parseFields line
+  let idx := f.get "idx"
+  if f.get "kind" == "lzma2" then
+    let cs := ((f.get "chunks").splitOn "|").filterMap parseChunk
+    let (bytes, out) := encode2 cs
+    s!"mat kind=lzma2 idx={idx} nchunks={cs.length} chunks={",".intercalate (cs.map chunkRepr)} " ++
+      s!"payload={hexOfBytes bytes} out={hexOfBytes out}"
+  else
+    let props : Props := { lc := f.nat "lc", lp := f.nat "lp", pb := f.nat "pb" }
+    let dict := f.nat "dict"
+    let prog := parseProg (f.get "prog")
+    let payload := encodeSyms props dict prog
+    let (out, wf) := expandPrefix dict prog
+    let eos := prog.getLast? == some Sym.eos
+    s!"mat kind=lzma idx={idx} lc={props.lc} lp={props.lp} pb={props.pb} dict={dict} eos={if eos then 1 else 0} wf={if wf then 1 else 0} " ++
+      s!"nsyms={prog.length} kinds={symKinds prog} prog={progRepr prog} cum={cumRepr dict prog} payload={hexOfBytes payload} out={hexOfBytes out}"
+
 def generate (kind : String) (seed n : Nat) : List String :=
   if kind == "lzmaexh" then genExhLines seed else
   (List.range n).map fun i =>
